@@ -150,6 +150,7 @@ func main() {
 		dir := fs.String("dir", repoDir, "repository")
 		outDir := fs.String("out", "/verif/out/verify", "output dir")
 		verbose := fs.Bool("v", false, "verbose")
+		fs.BoolVar(&replayFailures, "r", false, "replay sat failures")
 		fs.Parse(os.Args[2:])
 		os.Exit(cmdVerify(*dir, *only, *timeout, *outDir, *verbose))
 	case "check":
@@ -159,6 +160,8 @@ func main() {
 		os.Exit(2)
 	}
 }
+
+var replayFailures bool
 
 func cmdVerify(dir, only string, timeout int, outDir string, verbose bool) int {
 	v, err := loadProgram(dir)
@@ -175,7 +178,7 @@ func cmdVerify(dir, only string, timeout int, outDir string, verbose bool) int {
 	rc := 0
 	for _, k := range keys {
 		fc := v.cs.Funcs[k]
-		if fc.Trusted || (only != "" && !strings.Contains(k, only)) {
+		if fc.Trusted || (fc.Inline && len(fc.Ensures) == 0) || (only != "" && !strings.Contains(k, only)) {
 			continue
 		}
 		fn := v.findFunction(fc.Pkg, fc.Name)
@@ -223,6 +226,10 @@ func cmdVerify(dir, only string, timeout int, outDir string, verbose bool) int {
 			pos = fmt.Sprintf(" %s:%d", shortFile(o.Pos.Filename), o.Pos.Line)
 		}
 		fmt.Printf("  FAIL %-60s [%s] %s %.2fs%s\n        %s\n", o.Name, o.Status, o.Solver, o.Time, pos, o.Desc)
+		if o.Status == "sat" && replayFailures && o.Root.top != nil && o.Root.top.fc != nil {
+			rr := v.replayObligation(o, o.Root.top, o.Root.top.fn, o.Root.top.fc, filepath.Join(outDir, "replay"), o.Model)
+			fmt.Printf("        replay: %s (%s)\n", rr.Detail, rr.File)
+		}
 		if rc == 0 {
 			rc = 1
 		}
